@@ -1044,6 +1044,7 @@ fn chain_family() -> Vec<(ZoneSpec, Vec<String>)> {
 fn main() {
     // a stack overflow / abort in the code under test must become a verdict, not a dead check
     vcore::supervise("C10");
+    vcore::install_log_evaluation(); // logging is part of the environment: log arguments are evaluated as under a real subscriber
     let ctx = Ctx::from_args("C10", "exploration");
     let thorough = !ctx.quick();
 
